@@ -31,6 +31,9 @@ def run(rep, tier, seed, replay):
                 "compiled pattern and the proved oracle's pattern are compared over ALL paths by a DFA product; "
                 "non-trivial = built, contains a pattern token, and decided (equal, or attributed to a listed finding)")
     exprs = lib.inputs(rep, "C01", tier, seed, 1500, 20000, replay)
+    if replay is None:
+        import gen as _gen
+        exprs += [e for e in _gen.nested_tree_edge_family() if e not in set(exprs)]
     P = lib.Pair(exprs)
     h, m = P.h, P.m
     rep.evaluations = len(exprs)
